@@ -94,9 +94,35 @@ theorem history_never_panics_listExt (force : Bool) (js : List C07.Job) (s : St 
     (listExtWith_good eqTag) (listExtWith_proc eqTag) (listExtWith_noPanic eqTag) (listExtWith_envInv eqTag)
     js s n0 hg
 
+/-- **T06.6 for whole sessions at the real builtins, from the invariants of the INITIAL state only**: no history of
+    `eval` calls — each with its `prepare_eval` (`HistInstalls`) — makes the modelled VM with the builtins of
+    `Vm/ListExt.lean` panic, except through `apply`'s list-length guard. No hypothesis about builtins, none about any
+    later state: `IdleOk`, `NPInv`, `EnvInv` of the initial state (`acc` not pointing to a capturing lambda) and the
+    physical size bounds. -/
+theorem history_never_panics_from_initial_listExt (force : Bool) {s0 sf : St CHeap} {recs : List EvRec}
+    (hist : HistInstalls (listExtWith eqTag) force s0 recs sf) (i0 : IdleOk s0) (n0 : NPInv s0) (e0 : EnvInv s0)
+    (a0 : neE s0.heap s0.acc = true) (sz : ∀ rc ∈ recs, RecSized (listExtWith eqTag) force rc) :
+    ∀ f ∈ recFaults recs, ∀ m, f = Fault.panic m → m = "apply: list longer than fuel (cyclic list)" :=
+  history_never_panics_from_initial _ (listExtWith_codeLawsV eqTag) force (listExtWith_laws eqTag)
+    (listExtWith_good eqTag) (listExtWith_proc eqTag) (listExtWith_noPanic eqTag) (listExtWith_envInv eqTag)
+    hist i0 n0 e0 a0 sz
+
 end
 
 /-! ### non-vacuity: a program that runs `cons`, `set-car!` and `car` -/
+
+open Marwood.Lemmas.Good.Demo in
+/-- every hypothesis of `history_never_panics_from_initial_listExt` holds of a history on the demo machine in which
+    `prepare_eval` allocated two code objects (`Demo.demo_installs`, taken as a rejected form's garbage) -/
+example (eqTag : String → String → Bool) : ∀ f ∈ recFaults [EvRec.rejected sT], ∀ m, f = Fault.panic m →
+    m = "apply: list longer than fuel (cyclic list)" :=
+  history_never_panics_from_initial_listExt eqTag false (HistInstalls.rejected demo_garbage (.nil _)) sHalt_idleOk
+    (sHalt_npinv 0) (sHalt_envInv 0 (.inl rfl)) rfl
+    (by
+      intro rc hrc
+      have : rc = .rejected sT := by simpa using hrc
+      subst this
+      exact ⟨demo_small, by unfold Small; decide +kernel⟩)
 
 open Marwood.Lemmas.Good.LDemo in
 /-- every hypothesis holds of the demo state -/
